@@ -833,6 +833,14 @@ impl KotoVm {
                             _ => KValue::Str(error.to_string().into()),
                         };
 
+                        // The failed operation may have truncated the register stack (e.g. while
+                        // preparing a call that then failed its argument checks), so ensure that
+                        // the catching frame's registers are available again.
+                        if self.registers.len() < self.min_frame_registers {
+                            self.registers
+                                .resize(self.min_frame_registers, KValue::Null);
+                        }
+
                         self.set_register(recover_register, catch_value);
                         self.set_ip(ip);
                     }
